@@ -12,7 +12,7 @@ META = {
         "methods; each shared control operator reaches the same shared helper functions in both validators. Decides "
         "agreement of these tables for all inputs; agreement of verdicts on all (schema, value) pairs is not decided."),
     "assumptions": ["the two validators' data models correspond as: JSON Number<->CBOR Integer/Float, String<->Text, Array, Object<->Map"],
-    "also_decides": "C04.encctl / C04.ctlbytes: the JSON validator's own base64/hex control code agrees with the shared helpers the CBOR validator calls, on every decoder outcome, and receives the controller literal's bytes unchanged; C04.bareword: bareword member keys under every occurrence form",
+    "also_decides": "C04.encctl / C04.ctlbytes: the JSON validator's own base64/hex control code agrees with the shared helpers the CBOR validator calls, on every decoder outcome, and receives the controller literal's bytes unchanged; C04.bareword: bareword member keys under every occurrence form; C04.repeatcount: lower / upper bound of repeating map members",
     "trusted_base": ["syn 2 parser", "lib/absint.py"],
     "technique": "static analysis: sibling cross-checking of abstractly evaluated tables, of the two implementations of the text-encoding controls (decoders scripted), and of dispatch/callee sets",
 }
@@ -317,3 +317,5 @@ def run(ctx):
     ctx.guarded("C04.ctlbytes", r_ctlbytes)
     import c09
     ctx.guarded("C04.bareword", lambda c: c09.r_bareword(c, "C04.bareword"))
+    # the repeating-member bounds of map tables (`*N tstr => T`): both validators against the same oracle, hence against each other
+    ctx.guarded("C04.repeatcount", lambda c: c09.r_repeatcount(c, "C04.repeatcount"))
